@@ -51,6 +51,11 @@ pub fn all() -> Vec<(&'static str, Blueprint)> {
         ("v18_clone_fanout", v18_clone_fanout()),
         ("x22_same_diamond_twice", x22_same_diamond_twice()),
         ("x23_prefix_trailing_slash", x23_prefix_trailing_slash()),
+        ("x24_unit_fallback", x24_unit_fallback()),
+        ("v19_overlapping_generics", v19_overlapping_generics()),
+        ("x25_unicode_route_conflict", x25_unicode_route_conflict()),
+        ("x26_self_cycle", x26_self_cycle()),
+        ("x27_self_cycle_transient", x27_self_cycle_transient()),
     ]
 }
 
@@ -167,6 +172,7 @@ pub fn v06_dep() -> Blueprint {
     bp.routes(from![simdep]);
     bp.route(admin::ADMIN_CONFIG);
     bp.route(misc::TOKEN);
+    bp.route(misc::BADGE);
     bp
 }
 
@@ -537,5 +543,51 @@ pub fn x23_prefix_trailing_slash() -> Blueprint {
         bp
     });
     bp.route(misc::TIME);
+    bp
+}
+
+/// A fallback handler that returns the unit type (valid Rust, not a valid fallback), next to an
+/// ordinary route.
+pub fn x24_unit_fallback() -> Blueprint {
+    let mut bp = base();
+    bp.route(misc::PING);
+    bp.fallback(bad::unit::UNIT_FALLBACK);
+    bp
+}
+
+/// Overlapping generic constructors (see `shapes::generics`), registered one by one.
+pub fn v19_overlapping_generics() -> Blueprint {
+    let mut bp = Blueprint::new();
+    bp.import(from![pavex]);
+    bp.constructor(crate::shapes::generics::GW_ANY);
+    bp.constructor(crate::shapes::generics::GW_OPTIONAL);
+    bp.constructor(crate::shapes::generics::GW_LIST);
+    bp.route(crate::shapes::generics::GW_HANDLER);
+    bp.route(misc::PING);
+    bp
+}
+
+/// Conflicting routes whose registration lines hold multi-byte characters.
+pub fn x25_unicode_route_conflict() -> Blueprint {
+    let mut bp = base();
+    bp.route(bad::unicode::UNI_A);
+    bp.route(bad::unicode::UNI_B);
+    bp
+}
+
+/// A request-scoped constructor that takes a reference to the type it builds.
+pub fn x26_self_cycle() -> Blueprint {
+    let mut bp = base();
+    bp.constructor(bad::selfcycle::SC_CLIENT);
+    bp.route(bad::selfcycle::SC_HANDLER);
+    bp.route(misc::PING);
+    bp
+}
+
+/// The same with a transient constructor taking its own output by value.
+pub fn x27_self_cycle_transient() -> Blueprint {
+    let mut bp = base();
+    bp.constructor(bad::selfcycle::SC_RETRIER);
+    bp.route(bad::selfcycle::SC_HANDLER_T);
     bp
 }
